@@ -368,7 +368,7 @@ PROPS["C17"] = {
            "an event that concerns another socket of the same context never ends the retry loop. "
            "The socket core's handling of a failed connection attempt (unit connfail: the whole handle_connect_failed_event) touches the retry state of the failed endpoint ONLY: every other endpoint's attempt count and armed retry time are exactly what they were, "
            "no entry is dropped or invented; the failed endpoint's own back-off advances by on_connection_failure iff reconnecting is enabled and the error is not fatal. "
-           "PUSH's reaction to a lost pipe (unit pushpipes: the whole PushSocket::pipe_detached / pipe_attached): a detach removes exactly that pipe's entry and exactly that pipe's connection from the load balancer (every other pipe and connection untouched; an unknown pipe touches nothing); an attach registers the pipe and the connection under the same endpoint.",
+           "PUSH's reaction to a lost pipe (unit pushpipes: the whole PushSocket::pipe_detached / pipe_attached): a detach removes exactly that pipe's entry and exactly that pipe's connection from the load balancer (every other pipe and connection untouched; an unknown pipe touches nothing); an attach registers the pipe and the connection under the same endpoint. DealerSocket::pipe_detached (whole, same unit): the same, and the pipe also leaves the ingress engine and the pending senders while every other pipe stays.",
   "level_note": "Failure isolation across connections in the socket core's event handlers and 'traffic resumes once the peer is reachable' are fault-sequence/system properties: not covered; the zero-delay branch of the retry sleep is outside the contract (a zero RECONNECT_IVL cannot come out of the option parser). The call sites in async event handlers pass option values or small defaults (read, not under contract).",
   "technique": "contract-based deductive verification (Verus; durations as nanoseconds, nonlinear-arithmetic lemmas)",
   "trusted_base": ["prelude/time.rs: Duration/Instant as nanoseconds; saturating_mul clamps at Duration::MAX; Instant + Duration panics beyond the platform range (precondition)", "ASSUMPTION: the monotonic clock reads below half of its representable range"],
